@@ -64,6 +64,17 @@ Theorem C04_reload_eq_results : forall c f live fn o,
 Proof. exact reload_eq_results_full. Qed.
 Print Assumptions C04_reload_eq_results.
 
+(* ... and, with C01's map_run_denotes, what reloads is the denotation of the request (Model/MapDenote.v) *)
+Theorem C04_reload_eq_denotation : forall c f d live fn o,
+  finish false c = Ok f -> valid_request c = true ->
+  denote_run sym_body (c_funcs c) (c_inputs c) (c_internal c) = Ok d ->
+  In fn (c_funcs c) -> In o (fouts fn) -> kind_persists c fn = true ->
+  let w := {| w_root := root_name; w_files := w_files (f_world f); w_live := live |} in
+  exists o' v, find (fun y => str_eqb (fst y) o) (d_out d) = Some (o', v)
+               /\ load_outputs version_name w o = Ok (Some (PVal v), w).
+Proof. exact reload_eq_denotation. Qed.
+Print Assumptions C04_reload_eq_denotation.
+
 (* the fresh interpreter and the run's own interpreter, spelled out *)
 Corollary C04_reload_fresh : forall c f fn o,
   finish false c = Ok f -> valid_request c = true ->
